@@ -74,8 +74,12 @@ def main(argv):
             v.violation('compile-time operator result differs from the documented machine semantics',
                         {'class': 'c11-spec', 'kind': 'BIN', 'case': opcases[i]})
         probe_found = False
-        for i in mism[:5]:
-            if kinds[i] in ('SIMP', 'EVAL') and texts[i]:
+        # (trees with float arithmetic first: foldings that are harmless on ints are typically wrong on -0.0/inf/NaN)
+        cand = [i for i in mism if kinds[i] in ('SIMP', 'EVAL') and texts[i]]
+        cand.sort(key=lambda i: 0 if ('.' in texts[i] or '%' in texts[i]) else 1)
+        for i in cand[:40]:
+            if probe_found: break
+            if True:
                 # search: the mismatching program on 200 boundary register valuations through AstVm before/after
                 os.makedirs(os.path.join(WORK, 'C11'), exist_ok=True)
                 pp = os.path.join(WORK, 'C11', 'probe%d.spec' % i)
